@@ -10,6 +10,7 @@ import (
 	"os"
 	"path/filepath"
 	"sort"
+	"strings"
 	"sync"
 	"unicode/utf8"
 
@@ -88,6 +89,32 @@ func InstallPrimeSource(start int) (uninstall func()) {
 		defer mu.Unlock()
 		p, q := PrimePair(i)
 		i++
+		return p, q, true
+	})
+	return func() { sample.SetPrimeSource(nil) }
+}
+
+// InstallPrimeSourceByParty hands out pool entries as a function of the party that is currently executing
+// (as told by the tape multiplexer) and of how many pairs that party already took, so that the assignment does
+// not depend on the order in which parties are constructed. Twins "x#a"/"x#b" of one party get the same primes.
+func InstallPrimeSourceByParty(mux *tape.Mux, base int) (uninstall func()) {
+	var mu sync.Mutex
+	taken := map[string]int{}
+	sample.SetPrimeSource(func() (*saferith.Nat, *saferith.Nat, bool) {
+		mu.Lock()
+		defer mu.Unlock()
+		name := mux.Current()
+		who := name
+		if i := strings.Index(who, "#"); i >= 0 {
+			who = who[:i]
+		}
+		h := 0
+		for _, c := range []byte(who) {
+			h = (h*131 + int(c)) % 9973
+		}
+		k := taken[name]
+		taken[name]++
+		p, q := PrimePair(base + h + 7*k)
 		return p, q, true
 	})
 	return func() { sample.SetPrimeSource(nil) }
